@@ -131,12 +131,9 @@ def run_unit(path, tier="quick", overlay=None, tag=""):
             return h, None, 0.0
         cmd = ["cargo", "kani"] + flags + ["--harness", h["name"]]
         t1 = time.time()
-        try:
-            p = subprocess.run(cmd, cwd=crate, env=env, stdout=subprocess.PIPE, stderr=subprocess.STDOUT, timeout=h["timeout"] * (4 if tier == "thorough" else 1))
-            out = p.stdout.decode("utf-8", "replace")
-        except subprocess.TimeoutExpired as e:
-            out = "TIMEOUT\n" + ((e.stdout or b"").decode("utf-8", "replace")[-2000:])
-            subprocess.run(["pkill", "-f", crate], stdout=subprocess.DEVNULL, stderr=subprocess.DEVNULL)
+        rc, out = run_group(cmd, crate, env, h["timeout"] * (2 if tier == "thorough" else 1))
+        if rc is None:
+            out = "TIMEOUT\n" + out[-2000:]
         return h, out, time.time() - t1
 
     # first harness alone (it compiles the crate), the rest in parallel
@@ -216,16 +213,33 @@ def run_unit(path, tier="quick", overlay=None, tag=""):
     return res
 
 
+def run_group(cmd, cwd, env, timeout):
+    """run cmd in its own process group; on timeout kill the whole group (cargo -> kani-driver -> cbmc).  -> (rc|None, output)"""
+    import signal
+    p = subprocess.Popen(cmd, cwd=cwd, env=env, stdout=subprocess.PIPE, stderr=subprocess.STDOUT, start_new_session=True)
+    try:
+        out, _ = p.communicate(timeout=timeout)
+        return p.returncode, out.decode("utf-8", "replace")
+    except subprocess.TimeoutExpired:
+        try:
+            os.killpg(p.pid, signal.SIGKILL)
+        except OSError:
+            pass
+        try:
+            out, _ = p.communicate(timeout=10)
+        except Exception:
+            out = b""
+        return None, out.decode("utf-8", "replace")
+
+
 def playback(crate, env, flags, h):
     """re-run a failed harness with concrete playback; insert the generated unit tests into the crate and execute them
     natively (`cargo kani playback`) against the same extracted real text.  Returns the values and whether the native
     run fails too."""
     cmd = ["cargo", "kani"] + flags + ["-Z", "concrete-playback", "--concrete-playback=print", "--harness", h["name"]]
-    try:
-        p = subprocess.run(cmd, cwd=crate, env=env, stdout=subprocess.PIPE, stderr=subprocess.STDOUT, timeout=h["timeout"] * 2)
-    except subprocess.TimeoutExpired:
+    rc, out = run_group(cmd, crate, env, h["timeout"] * 2)
+    if rc is None:
         return None
-    out = p.stdout.decode("utf-8", "replace")
     tests = re.findall(r"```\n(.*?)```", out, re.S)
     if not tests:
         return None
@@ -234,12 +248,9 @@ def playback(crate, env, flags, h):
     cex = {"harness": h["name"], "values": [{"value": v.strip(), "bytes": b.strip()} for v, b in vecs], "playback_test": body[:3000],
            "replayed_natively": None}
     try:
-        subprocess.run(["cargo", "kani"] + flags + ["-Z", "concrete-playback", "--concrete-playback=inplace", "--harness", h["name"]],
-                       cwd=crate, env=env, stdout=subprocess.PIPE, stderr=subprocess.STDOUT, timeout=h["timeout"] * 2)
-        p2 = subprocess.run(["cargo", "kani", "playback", "-Z", "concrete-playback"] + [f for f in flags if f not in ("-Z", "concrete-playback")] +
-                            ["--", "kani_concrete_playback_" + h["name"]],
-                            cwd=crate, env=env, stdout=subprocess.PIPE, stderr=subprocess.STDOUT, timeout=600)
-        o2 = p2.stdout.decode("utf-8", "replace")
+        run_group(["cargo", "kani"] + flags + ["-Z", "concrete-playback", "--concrete-playback=inplace", "--harness", h["name"]], crate, env, h["timeout"] * 2)
+        rc2, o2 = run_group(["cargo", "kani", "playback", "-Z", "concrete-playback"] + [f for f in flags if f not in ("-Z", "concrete-playback")] +
+                            ["--", "kani_concrete_playback_" + h["name"]], crate, env, 900)
         m = re.search(r"test result: (\w+)\. (\d+) passed; (\d+) failed", o2)
         if m:
             cex["replayed_natively"] = "native run of the playback tests against the extracted real text: %s passed, %s failed" % (m.group(2), m.group(3))
